@@ -82,3 +82,21 @@ Proof. exact demo_result. Qed.
 Print Assumptions C06_remove_entity.
 Print Assumptions C06_remove_entity_graph.
 Print Assumptions C06_reuse.
+
+(** ** The target marks in the code of /repo itself: ecs/bitset.go (World.targetEntities),
+    as translated into [Gen/GoBitSet.v], is the model's list of booleans [w_tbits]. *)
+From Arche Require Import Pure.GoRt Gen.GoBitSet Proofs.BitSetTie.
+Local Open Scope nat_scope.
+Theorem C06_code_bitset_get : forall g l i x, bs_rel g l -> l !! i = Some x -> bitSet_Get g (N.of_nat i) = Ret x.
+Proof. exact BitSetTie.Get_tie. Qed.
+Theorem C06_code_bitset_set : forall g l i v, bs_rel g l -> i < length l ->
+  exists g', bitSet_Set g (N.of_nat i) v = Ret g' /\ bs_rel g' (<[i := v]> l).
+Proof. exact Set_tie_insert. Qed.
+Theorem C06_code_bitset_append : forall g l v, bs_rel g l -> length l < 64 * length (words g) ->
+  exists g', bitSet_Set g (N.of_nat (length l)) v = Ret g' /\ bs_rel g' (l ++ [v]).
+Proof. exact Set_tie_append. Qed.
+Theorem C06_code_bitset_extend : forall g l n, bs_rel g l -> (n < 2 ^ 63)%N ->
+  exists g', bitSet_ExtendTo g n = Ret g' /\ bs_rel g' l /\ (n <= 64 * N.of_nat (length (words g')))%N.
+Proof. exact ExtendTo_tie. Qed.
+Print Assumptions C06_code_bitset_set.
+Print Assumptions C06_code_bitset_extend.
